@@ -198,9 +198,15 @@ class _Day:
     pass
 
 
+class TruncDiv(AnalysisError):
+    pass
+
+
 def _ev(e, env):
     if isinstance(e, ast.Constant):
         return e.value
+    if isinstance(e, ast.Call) and isinstance(e.func, ast.Name) and e.func.id == 'int' and len(e.args) == 1 and isinstance(e.args[0], ast.BinOp) and isinstance(e.args[0].op, ast.Div):
+        raise TruncDiv(ast.unparse(e))
     if isinstance(e, ast.UnaryOp) and isinstance(e.op, ast.USub):
         return lin(0) - lin(_ev(e.operand, env))
     if isinstance(e, ast.Name):
@@ -314,7 +320,13 @@ def c09_3(ctx):
     for s0 in range(7):
         for r in range(5):
             env = dict(t=_Date(0), DAY=_Day(), __s0__=s0, __n__=Lin(r, 5))
-            _run(pre + body, env)
+            try:
+                _run(pre + body, env)
+            except TruncDiv as ex:
+                ctx.count(1)
+                ctx.fail(fn, body[0], 'the closed form divides with `%s`, which truncates toward zero: for a negative count that is not a multiple of 5 the number of whole weeks is one too small (floor division // is required), so -1b from a Monday lands on Sunday' % ex,
+                         witness="dt_bump(monday, '-1b')", stmt=str(ex))
+                return
             off = env['t'].off
             roll = (7 - s0) if s0 > 4 else 0
             s1 = (s0 + roll) % 7
